@@ -391,6 +391,9 @@ def gen_spec(seed: int, config: str | None = None) -> dict:
     # payload lists as callers really have them: the same payload object listed twice, two payloads that compare equal,
     # two different payloads that name the same path (a file processed under two option sets).  "One result per payload"
     # is per list entry.  Drawn from a stream of its own so that the rest of the spec stays what it was.
+    ev = random.Random(derive(seed, "environment"))
+    if ev.random() < 0.25:
+        spec["knobs"]["caller_is_mp_child"] = True
     tk = random.Random(derive(seed, "think"))
     if tk.random() < 0.05:
         spec["knobs"]["consumer_think_ns"] = tk.choice([10**9, 600 * 10**9, 2400 * 10**9, 7200 * 10**9])  # 1 s .. 2 h per result
@@ -538,6 +541,12 @@ def patched(env: execseam.ExecEnv | None, spec: dict, sim: Sim):
         setattr_(m_parproc, "multiprocessing", execseam.SimMultiprocessing(spec["cpu_count"]))
         setattr_(m_parproc, "threading", SimThreading())
         setattr_(real_mp, "cpu_count", lambda: spec["cpu_count"])
+        # "am I a multiprocessing child?" is a fact about the environment, so the simulator answers it: yes inside the
+        # body of a process-pool task, and for the caller of the loop whatever the spec says (an application that itself
+        # runs in a multiprocessing.Process, a nested use inside a pool worker) - never what the batch runner happens to be
+        _fake_parent = type("FakeParentProcess", (), {"name": "MainProcess", "pid": 1, "is_alive": lambda self: True})()
+        _caller_is_child = bool(spec["knobs"].get("caller_is_mp_child"))
+        setattr_(real_mp, "parent_process", lambda: _fake_parent if (_caller_is_child or (env is not None and env.in_worker_process > 0)) else None)
         setattr_(m_task, "memory_use", lambda: 0)
         setattr_(m_task, "time", SimTime(sim))
         setattr_(m_visual, "time", SimTime(sim))
@@ -856,7 +865,7 @@ def run(spec: dict, decider: Decider, keep_events: bool = False) -> RunResult:
             if seq_raised is not None:
                 raise Violation("sequential-raised", f"{type(seq_raised).__name__}: {seq_raised}", "seq")
             if sorted(map(canon, seq)) != sorted(map(canon, got)):
-                raise Violation("differs-from-sequential", f"parallel {sorted(got)} sequential {sorted(seq)}", "seq-diff")
+                raise Violation("differs-from-sequential", f"parallel {sorted(got, key=repr)} sequential {sorted(seq, key=repr)}", "seq-diff")
             for key, out, exc in seq:
                 if (out, exc) != truth.get(key):
                     raise Violation("sequential-content", f"payload {key}: sequential mode gave {(out, exc)} expected {truth.get(key)}", "seq-wrong")
@@ -1005,6 +1014,10 @@ def shrink_candidates(spec: dict):
     if spec["knobs"].get("consumer_think_ns"):
         s = copy.deepcopy(spec)
         del s["knobs"]["consumer_think_ns"]
+        yield s
+    if spec["knobs"].get("caller_is_mp_child"):
+        s = copy.deepcopy(spec)
+        del s["knobs"]["caller_is_mp_child"]
         yield s
     for i, p in enumerate(ps):
         if p.get("deep"):
